@@ -7,7 +7,9 @@ VERIF = os.path.dirname(os.path.dirname(os.path.abspath(__file__)))
 
 TRUST = ('Trusted: Coq 8.16.1 kernel (vm_compute for witnesses and examples, no native_compute); the axioms named per theorem in the evidence '
          '(standard real-number axioms, classic, functional_extensionality_dep, eq_rect_eq where Flocq needs them - none declared here); '
-         'translator (cxx2gallina.py + clang AST); extraction (ExtrOcamlBasic only) + OCaml; the correspondence harness and its generators. ')
+         'translator (cxx2gallina.py + clang AST); extraction (ExtrOcamlBasic only) + OCaml; the correspondence harness and its generators. '
+         'Besides the comparison with the model every check runs its cases under ASan/UBSan, compares a sample with builds made by g++ -std=c++17 -O2 -DNDEBUG and by clang++, '
+         'and varies the process environment, stream state and object handling on the C++ side (DESIGN.md 9.2, 5b). ')
 
 P = {
  'C01': ('Theorems over the reals about the model\'s own icdf / mc_weight: lattice numbers map to cell midpoints with weight bins x width, the average of f*w over the '
@@ -37,7 +39,7 @@ P = {
          'Flocq real-analysis proof of the radix conversion + structural induction over the codec model; token-exact correspondence',
          'glibc printf/strtod correct rounding and the engines\' own operator<< / >> are assumptions (checked on every number of every text / by a C++-only round trip).'),
  'C06': ('Law-generic twin theorems: one accumulator step, one iteration and a whole multi-iteration run (all three integrators) under f and under its zeroed twin agree on everything '
-         'but the non-zero counter; non-finite fills change no bin; IEEE supplement Properties_C06f: reported sums and value finite under an explicit no-overflow hypothesis. Found and repaired a defect (poisoned-only iteration made the combined result NaN). Properties_C06w: the counters of non-zero / finite evaluations are 64-bit as declared (regenerated table). Paired real runs (serial and on the MPI shim) are compared with the model; a float iteration above 2^24 evaluations runs under real MPI.',
+         'but the non-zero counter; non-finite fills change no bin; IEEE supplement Properties_C06f: reported sums and value finite under an explicit no-overflow hypothesis. Found and repaired a defect (poisoned-only iteration made the combined result NaN). Properties_C06w: the counters of non-zero / finite evaluations are 64-bit as declared (regenerated table). Paired real runs (serial and on the MPI shim) are compared with the model; a float iteration above 2^24 evaluations runs under real MPI; the floating-point exception flags of a poisoned run must equal those of its zeroed twin.',
          'simulation relation (equal up to nz counters) proved by induction over calls and iterations; paired-run correspondence',
          'Channel maps must honour their documented contract; overflow of finite sums is not excluded by proof.'),
  'C07': ('Real-arithmetic theorems about the model\'s refine_pdf / icdf: no out-of-bounds scan, endpoints 0 and 1, non-decreasing (strict stays strict), equal share of importance per new bin, '
@@ -54,7 +56,7 @@ P = {
          'order-law-generic bisection proof + Flocq monotonicity proof; boundary-exhaustive correspondence',
          'libstdc++ upper_bound / partial_sum / generate_canonical are modelled (validated by the tie).'),
  'C10': ('Law-generic theorems: an iteration of N calls advances the generator by exactly N x d (N x (d+1) multi-channel) canonical numbers whatever the integrand returns; the stored generator is '
-         'the advanced one; the usage predictor (since the repair of the defect for engine ranges 2^7, 2^14, 2^53) counts what std::generate_canonical takes and equals the cost of every number for any implementation whose consumption is value-independent; supplement Properties_C10m: the same stored positions on every rank of the lock-step MPI model. Real engines (nine standard, engine adaptors with power-of-two ranges, odd moduli, synthetic) are measured against the predictor by a C++-only check; the MPI drivers run under real mpirun with instantiations of std::linear_congruential_engine (increment != 0, odd moduli) against the serial stored generator.',
+         'the advanced one; the usage predictor (since the repair of the defect for engine ranges 2^7, 2^14, 2^53) counts what std::generate_canonical takes and equals the cost of every number for any implementation whose consumption is value-independent; supplement Properties_C10m: the same stored positions on every rank of the lock-step MPI model. Real engines (nine standard, engine adaptors with power-of-two ranges, odd moduli, synthetic) are measured against the predictor by a C++-only check; the MPI drivers run under real mpirun with instantiations of std::linear_congruential_engine (increment != 0, odd moduli) against the serial stored generator; the *_iteration functions are called directly with the caller's generator observed at every call and after an exception.',
          'induction over calls on the iteration model + translated predictor arithmetic + draw counting on real engines',
          'Value-independence of the consumption of std::generate_canonical is a hypothesis (true of the C++11 algorithm; measured on every engine of the harness).'),
  'C11': ('Real-arithmetic theorems about the model\'s fill1d / fill2d: a finite value goes to flat index ky*bx+kx iff the coordinate lies in that half-open bin, to no bin outside; mid-points enumerate the '
